@@ -19,6 +19,7 @@ type WTarget struct {
 	Whole  bool   // whole region
 	Ghost  string
 	Any    bool
+	Except []string // with Any: ghost variables that are not written
 }
 
 // evalTargets evaluates a modifies clause to write targets.
@@ -60,6 +61,15 @@ func (fc *FnCtx) evalTargets(x ast.Expr, env *Env) []WTarget {
 				s := x.Args[0].(*ast.BasicLit).Value
 				s = strings.Trim(s, "\"")
 				return []WTarget{{Region: s, Whole: true}}
+			case "anybut":
+				// everything except the listed ghost variables
+				t := WTarget{Any: true}
+				for _, a := range x.Args {
+					if id, ok := a.(*ast.Ident); ok {
+						t.Except = append(t.Except, id.Name)
+					}
+				}
+				return []WTarget{t}
 			}
 		}
 	case *ast.StarExpr:
@@ -165,7 +175,15 @@ func (fc *FnCtx) havoc(st *State, ts []WTarget) {
 				st.Heap[n] = vc.sc.fresh(n+"@", arraySort(nidx, leaf))
 			}
 			for g := range fc.eng.cs.Ghosts {
-				st.Gh[g] = vc.sc.fresh("gh_"+g, fc.eng.ghostSort(g))
+				kept := false
+				for _, e := range t.Except {
+					if e == g {
+						kept = true
+					}
+				}
+				if !kept {
+					st.Gh[g] = vc.sc.fresh("gh_"+g, fc.eng.ghostSort(g))
+				}
 			}
 		case t.Ghost != "":
 			st.Gh[t.Ghost] = vc.sc.fresh("gh_"+t.Ghost, fc.eng.ghostSort(t.Ghost))
